@@ -1153,7 +1153,20 @@ def h34_shallow_copy_keeps_memos(ctx, tk, rule, funcs):
                     for tg in x.targets:
                         if isinstance(tg, ast.Attribute) and isinstance(tg.value, ast.Name) and tg.value.id == init.params[0]:
                             memos.add(tg.attr)
-        if not memos:
+        # attributes the constructor derives from another attribute (self.shape = self.array.shape): they describe that attribute
+        # and go stale when a copy replaces it
+        derived = {}
+        for c in f.cls.mro():
+            init = c.methods.get("__init__")
+            if init is None:
+                continue
+            for x in ast.walk(init.node):
+                if isinstance(x, ast.Assign) and len(x.targets) == 1 and isinstance(x.targets[0], ast.Attribute) and isinstance(x.targets[0].value, ast.Name) \
+                        and x.targets[0].value.id == init.params[0]:
+                    for y in ast.walk(x.value):
+                        if isinstance(y, ast.Attribute) and isinstance(y.value, ast.Name) and y.value.id == init.params[0] and y.attr != x.targets[0].attr:
+                            derived.setdefault(y.attr, set()).add(x.targets[0].attr)
+        if not memos and not derived:
             continue
         for x in ast.walk(f.node):
             if not (isinstance(x, ast.Assign) and isinstance(x.value, ast.Call) and len(x.targets) == 1 and isinstance(x.targets[0], ast.Name)):
@@ -1165,6 +1178,11 @@ def h34_shallow_copy_keeps_memos(ctx, tk, rule, funcs):
             var = x.targets[0].id
             stored = {t.attr for y in ast.walk(f.node) if isinstance(y, ast.Assign) for t in y.targets
                       if isinstance(t, ast.Attribute) and isinstance(t.value, ast.Name) and t.value.id == var}
+            stale = sorted({d for src in stored for d in derived.get(src, ()) if d not in stored})
+            if stale:
+                ctx.violated(rule, f, "an object derived by copying refreshes the attributes its constructor derives from what is changed",
+                             "`%s` copies self, then replaces %s; the constructor derives %s from it, and the copy keeps the original's" % (
+                                 ast.unparse(x), ", ".join(sorted(src for src in stored if src in derived)), ", ".join(stale)), node=x, engine="E3")
             changed = stored - memos
             kept = sorted(memos - stored)
             if changed and kept:
@@ -1937,7 +1955,7 @@ def h62_positions_in_a_narrow_type(ctx, tk, rule, funcs):
                 continue
             recv = x.func.value
             positional = any((isinstance(y, ast.Name) and y.id in ("indices", "events", "positions", "starts", "ends", "offsets", "boundaries")) or
-                             (isinstance(y, ast.Attribute) and y.attr in ("_events", "_indices", "starts", "ends", "_starts", "_ends")) or
+                             (isinstance(y, ast.Attribute) and y.attr in ("_events", "_indices", "starts", "ends", "_starts", "_ends", "_codes")) or
                              (isinstance(y, ast.Call) and isinstance(y.func, ast.Attribute) and y.func.attr in ("flatnonzero", "cumsum", "arange")) for y in ast.walk(recv))
             if positional:
                 ctx.violated(rule, f, "positions and run boundaries are kept in the platform integer",
@@ -1972,6 +1990,111 @@ def h63_sorted_order_undone_with_the_same_permutation(ctx, tk, rule, funcs):
                                  "`%s`: `%s` was computed from data taken in the order `%s`; indexing it with `%s` again applies the permutation twice instead of undoing it "
                                  "(right only for self-inverse permutations such as reversals and swaps)" % (ast.unparse(x), x.value.id, o, o), node=x, engine="KB")
                     break
+
+
+def h64_memo_handed_to_a_derived_object(ctx, tk, rule, funcs):
+    """ret = cls(<something new>); ret._memo = self._memo: a per-object memo (set to None by the constructor, filled on demand)
+    describes the object it was computed for; handed to an object built from another geometry / buffer it is wrong"""
+    for f in funcs:
+        if f.cls is None or not f.params:
+            continue
+        selfn = f.params[0]
+        memos = set()
+        for c in f.cls.mro():
+            init = c.methods.get("__init__")
+            if init is None:
+                continue
+            for x in ast.walk(init.node):
+                if isinstance(x, ast.Assign) and isinstance(x.value, ast.Constant) and x.value.value is None:
+                    for tg in x.targets:
+                        if isinstance(tg, ast.Attribute) and isinstance(tg.value, ast.Name) and tg.value.id == init.params[0]:
+                            memos.add(tg.attr)
+        if not memos:
+            continue
+        built = {}
+        for x in ast.walk(f.node):
+            if isinstance(x, ast.Assign) and len(x.targets) == 1 and isinstance(x.targets[0], ast.Name) and isinstance(x.value, ast.Call):
+                uses_param = any(isinstance(y, ast.Name) and y.id in f.params[1:] for a in list(x.value.args) + [k.value for k in x.value.keywords] for y in ast.walk(a))
+                fn = x.value.func
+                ctor = (isinstance(fn, ast.Attribute) and fn.attr in ("_cls", "__class__")) or (isinstance(fn, ast.Name) and fn.id[:1].isupper())
+                if ctor and uses_param:
+                    built[x.targets[0].id] = x
+        for x in ast.walk(f.node):
+            if isinstance(x, ast.Assign) and len(x.targets) == 1 and isinstance(x.targets[0], ast.Attribute) and isinstance(x.targets[0].value, ast.Name) \
+                    and x.targets[0].value.id in built and x.targets[0].attr in memos \
+                    and isinstance(x.value, ast.Attribute) and isinstance(x.value.value, ast.Name) and x.value.value.id == selfn and x.value.attr == x.targets[0].attr:
+                ctx.violated(rule, f, "a memo is valid for the object it was computed for only",
+                             "`%s`: `%s` was built from the argument(s) of %s, not from self's geometry; self's memo `%s` (None until filled) does not describe it" % (
+                                 ast.unparse(x), x.targets[0].value.id, f.name, x.value.attr), node=x, engine="E3")
+
+
+def h65_selector_cast_to_index_dtype(ctx, tk, rule, funcs):
+    """rows.astype(<index dtype>) on a caller's row / position numbers BEFORE they were range-checked: under a 32-bit index
+    dtype an out-of-range number wraps modulo 2**32 into a valid one instead of being refused"""
+    selector_names = ("idx", "index", "indices", "raw_idx", "_index", "rows", "row_idx", "row_indices")
+    for f in funcs:
+        for x in ast.walk(f.node):
+            if not (isinstance(x, ast.Call) and isinstance(x.func, ast.Attribute) and x.func.attr == "astype" and x.args
+                    and isinstance(x.func.value, ast.Name) and x.func.value.id in f.params and x.func.value.id in selector_names):
+                continue
+            d = x.args[0]
+            if (isinstance(d, ast.Attribute) and (d.attr == "_dtype" or d.attr in NARROW_INTS)):
+                ctx.violated(rule, f, "a caller's row numbers are range-checked in their own type",
+                             "`%s` converts the caller's row numbers to the configured index type first: a number beyond that type wraps into the valid range instead of being refused" % ast.unparse(x)[:100],
+                             node=x, engine="KB")
+
+
+def h66_key_dtype_as_value_dtype(ctx, tk, rule, funcs):
+    """a value dtype taken from the table's key dtype (or the reverse): the two are independent"""
+    for f in funcs:
+        local = {}
+        for x in ast.walk(f.node):
+            if isinstance(x, ast.Assign) and len(x.targets) == 1 and isinstance(x.targets[0], ast.Name):
+                local.setdefault(x.targets[0].id, []).append(x.value)
+        for x in ast.walk(f.node):
+            if not isinstance(x, ast.Call):
+                continue
+            for kw in x.keywords:
+                if kw.arg not in ("value_dtype", "key_dtype"):
+                    continue
+                other = "_key_dtype" if kw.arg == "value_dtype" else "_value_dtype"
+                own = "_value_dtype" if kw.arg == "value_dtype" else "_key_dtype"
+                exprs = [kw.value] + [v for y in ast.walk(kw.value) if isinstance(y, ast.Name) for v in local.get(y.id, ())]
+                attrs = {y.attr for e in exprs for y in ast.walk(e) if isinstance(y, ast.Attribute)}
+                if other in attrs and own not in attrs:
+                    ctx.violated(rule, f, "the value type of a derived table comes from the table's value type (keys and values are typed independently)",
+                                 "`%s=%s` is derived from `%s`: float values of an integer-keyed table are truncated" % (kw.arg, ast.unparse(kw.value)[:60], other), node=x, engine="KB")
+
+
+def h67_reshape_inferred_dimension(ctx, tk, rule, funcs):
+    """x.reshape(-1, L) with a computed L: for L == 0 (only empty rows) numpy cannot infer the first dimension and raises,
+    x.reshape(n_rows, L) works"""
+    for f in funcs:
+        for x in ast.walk(f.node):
+            if not (isinstance(x, ast.Call) and isinstance(x.func, ast.Attribute) and x.func.attr == "reshape"):
+                continue
+            dims = list(x.args[0].elts) if len(x.args) == 1 and isinstance(x.args[0], ast.Tuple) else list(x.args)
+            if len(dims) < 2:
+                continue
+            minus = [d for d in dims if isinstance(d, ast.UnaryOp) and isinstance(d.op, ast.USub) and isinstance(d.operand, ast.Constant) and d.operand.value == 1]
+            others = [d for d in dims if d not in minus]
+            if len(minus) == 1 and others and any(not isinstance(d, ast.Constant) for d in others):
+                var = [d for d in others if not isinstance(d, ast.Constant)][0]
+                lengthy = any((isinstance(y, ast.Attribute) and y.attr in ("lengths", "shape")) or (isinstance(y, ast.Name) and y.id in ("L", "row_len", "n_cols", "width", "max_len")) or
+                              (isinstance(y, ast.Subscript) and isinstance(y.value, ast.Attribute) and y.value.attr == "lengths") for y in ast.walk(var)) or _from_lengths(f, var)
+                if lengthy:
+                    ctx.violated(rule, f, "a matrix of n rows with 0 columns is shaped with its explicit row count",
+                                 "`%s`: when `%s` is 0 (every row empty) numpy cannot infer the -1 dimension and raises" % (ast.unparse(x)[:100], ast.unparse(var)), node=x, engine="KB")
+
+
+def _from_lengths(f, var):
+    if not isinstance(var, ast.Name):
+        return False
+    for x in ast.walk(f.node):
+        if isinstance(x, ast.Assign) and any(isinstance(t, ast.Name) and t.id == var.id for t in x.targets):
+            if any(isinstance(y, ast.Attribute) and y.attr == "lengths" for y in ast.walk(x.value)):
+                return True
+    return False
 
 
 def generic(ctx, tk, rule, funcs, skip=()):
@@ -2035,6 +2158,10 @@ def generic(ctx, tk, rule, funcs, skip=()):
     h61_shifted_window_in_chunk_loop(ctx, tk, rule + "/H61", fs)
     h62_positions_in_a_narrow_type(ctx, tk, rule + "/H62", fs)
     h63_sorted_order_undone_with_the_same_permutation(ctx, tk, rule + "/H63", fs)
+    h64_memo_handed_to_a_derived_object(ctx, tk, rule + "/H64", fs)
+    h65_selector_cast_to_index_dtype(ctx, tk, rule + "/H65", fs)
+    h66_key_dtype_as_value_dtype(ctx, tk, rule + "/H66", fs)
+    h67_reshape_inferred_dimension(ctx, tk, rule + "/H67", fs)
     from . import wellformed as _W
     _W.report_constant_truth(ctx, tk, rule, fs)
     # H19 (raw ufunc identity stored) depends on which ufunc the caller chose: it is applied by C05 only, where the
